@@ -107,7 +107,15 @@ fn apply_fault(data_dir: &Path, thread: &str, f: &Fault, versions: &Versions) {
                     }
                     pos
                 } else {
-                    (b.len() as u64 * pm / 1000) as usize
+                    // torn: strictly inside a line. A cut on a line boundary, or right before the
+                    // newline of a complete line, leaves a well-formed prefix — a different class
+                    let mut n = (b.len() as u64 * pm / 1000) as usize;
+                    if k.ends_with(".jsonl") {
+                        while n > 1 && n < b.len() && (b[n - 1] == b'\n' || b[n] == b'\n') {
+                            n -= 1;
+                        }
+                    }
+                    n
                 };
                 let _ = std::fs::write(path(k), &b[..n.min(b.len())]);
             }
